@@ -207,6 +207,8 @@ def capture_from():
     def spy(self, *a, **k):
         if 'pre' not in box:
             box['pre'] = cmol_ints(self)
+            box['labels'] = ({n: a._stereo for n, a in self._atoms.items() if a._stereo is not None},
+                             {(n, m): b._stereo for n, m, b in self.bonds() if b._stereo is not None})
             try:
                 box['env'] = env_ints(self)
             except Exception as e:  # the dictionaries themselves raised
@@ -226,11 +228,67 @@ def real_to(mol, keep=True):
     return rd, box.get('pre')
 
 
-def real_from(rd):
+def real_from(rd, box_out=None):
     from chython.utils.rdkit import from_rdkit_molecule
     with capture_from() as box:
         mol = from_rdkit_molecule(rd)
+    if box_out is not None:
+        box_out.update(box)
     return mol, box.get('pre'), box.get('env')
+
+
+def chiral_for(mol, labels):
+    """the three `chiral_*` sets the real code reports for `mol`'s constitution when exactly `labels` = [(kind, a, b, sign)] are
+    present (scratch copy, fresh caches): the oracle of the `fix_stereo` model."""
+    c = mol.copy()
+    for a in c._atoms.values():
+        a._stereo = None
+    for *_x, b in c.bonds():
+        b._stereo = None
+    c.flush_cache()
+    for k, a, b, sg in labels:
+        if k == 2:
+            i, j = c._stereo_cis_trans_centers[a]
+            c._bonds[i][j]._stereo = bool(sg)
+        else:
+            c._atoms[a]._stereo = bool(sg)
+    c.flush_cache()
+    return ([(0, n, 0) for n in sorted(c.chiral_tetrahedrons)] + [(1, n, 0) for n in sorted(c.chiral_allenes)] +
+            [(2, n, m) for n, m in sorted(c.chiral_cis_trans)])
+
+
+def oracle_table(back, labels):
+    """label sets a restore loop over the labels moved by `from_rdkit_molecule` can ask about (initial segments in queue order:
+    atoms(), then bonds()), each answered by the real `chiral_*` sets. The table only ANSWERS; which labels survive is decided
+    by the model (which reports `oracle-missing` when it asks anything else)."""
+    al, bl = labels
+    st, sa, term = back.stereogenic_tetrahedrons, back.stereogenic_allenes, back._stereo_cis_trans_terminals
+    pend = [(0, n, 0, int(al[n])) for n in back._atoms if n in al and n in st]
+    pend += [(1, n, 0, int(al[n])) for n in back._atoms if n in al and n not in st and n in sa]
+    for n, m, b in back.bonds():
+        sg = bl.get((n, m), bl.get((m, n)))
+        if sg is not None and int(b) == 2 and term.get(n) and term.get(m) == term.get(n):
+            pend.append((2,) + tuple(term[n]) + (int(sg),))
+    restored, table = [], []
+    for _ in range(len(pend) + 1):
+        if not pend:
+            break
+        ch = chiral_for(back, restored)
+        table.append((list(restored), ch))
+        units = set(ch)
+        ok = [l for l in pend if l[:3] in units]
+        if not ok:
+            break
+        restored = restored + ok
+        pend = [l for l in pend if l[:3] not in units]
+    out = [len(table)]
+    for ls, us in table:
+        out += [len(ls)] + [x for l in ls for x in l] + [len(us)] + [x for u in us for x in u]
+    return out
+
+
+def canon_final(text):
+    return text.split(' | ')[0]
 
 
 # ------------------------------------------------------------------------------------------------
@@ -1129,7 +1187,11 @@ class Stream:
         if not ctx.build_ok:
             ctx.notes.append(f'{self.name}: driver not built, {len(self.req)} requests not compared')
             return
+        import time as _t, os as _o
+        _t0 = _t.time()
         model = core.run_driver('C20', self.req)
+        if _o.environ.get('C20_TIMING'):
+            print(f'[timing] driver {self.name}: {len(self.req)} requests {_t.time() - _t0:.1f}s', flush=True)
         if len(model) != len(self.req):
             ctx.broke('correspondence', self.name, f'driver returned {len(model)} lines for {len(self.req)} requests')
             return
@@ -1153,6 +1215,23 @@ class Stream:
             ctx.sample({'stream': self.name, 'case': self.meta[i], 'real': self.real[i][:160], 'model': model[i][:160]})
 
 
+def add_final(ctx, stream, rd, back, box, meta):
+    """one `from-final` case: the molecule `from_rdkit_molecule` RETURNED vs `fromRdFinal` (label loops + fix_stereo over the
+    oracle table)."""
+    try:
+        has = any(a.GetChiralTag().name in ('CHI_TETRAHEDRAL_CW', 'CHI_TETRAHEDRAL_CCW') for a in rd.GetAtoms()) or \
+            any(b.GetStereo().name in ('STEREOE', 'STEREOZ') for b in rd.GetBonds())
+        if ctx.quick and not meta.startswith(('stereo', 'dependent', 'meso', 'axial', 'mixed', 'isostereo', 'spelling', 'edge')) \
+                and ctx.rng.random() < (0.6 if has else 0.8):
+            return      # quick tier: every template, a sample of the corpus / element / donor molecules
+        table = oracle_table(back, box.get('labels', ({}, {}))) if has else [0]
+        stream.add(line('fromf', rmol_ints(rd), nbrs_ints(rd), table), 'ok ' + ' '.join(map(str, cmol_ints(back))), meta,
+                   has)
+        ctx.dist('from-final:rounds=%d' % (table[0] if has else -1))
+    except Exception as e:
+        ctx.dist('from-final:not-encodable:' + type(e).__name__)
+
+
 def report(ctx, kind, tag, smi, bad, extra=None):
     for what, detail in bad:
         ctx.fail(f'C20/{kind}/{what}', f'{kind} round trip: {what} not preserved for {tag} ({smi}): {detail}',
@@ -1165,6 +1244,7 @@ def correspond(ctx):
     ctx.cov['programs'] = 5   # to_rdkit_molecule, from_rdkit_molecule, stereogenic_tetrahedrons, _stereo_cis_trans_centers, stereogenic_cis_trans
     s_env, s_from, s_rt, s_edge = (Stream(ctx, n) for n in ('env', 'from', 'model-round-trip', 'edge'))
     s_to = Stream(ctx, 'to', canon_rmol)
+    s_ff = Stream(ctx, 'from-final', canon_final)    # the RETURNED molecule against the whole-function model (fix_stereo included)
     s_tof = Stream(ctx, 'to-final', canon_labels)   # the RETURNED RDKit molecule against the model: the tail of `to` (SanitizeMol,
     #                                                AssignStereochemistry, SetDoubleBondNeighborDirections) must leave every transferred field alone
     rng = ctx.rng
@@ -1225,8 +1305,9 @@ def correspond(ctx):
                 if rng.random() < 0.5:
                     for a in rd.GetAtoms():
                         a.SetAtomMapNum(rng.randint(0, 99))
+                fbox = {}
                 try:
-                    back, pre, envr = real_from(rd)
+                    back, pre, envr = real_from(rd, fbox)
                 except Exception as e:
                     ctx.dist('B:from-raises:' + type(e).__name__)
                     s_from.add(line('from', rmol_ints(rd), nbrs_ints(rd)), 'err ' + type(e).__name__, f'{tag}:rd:{vt}')
@@ -1236,6 +1317,7 @@ def correspond(ctx):
                     continue
                 nt = nontrivial(back)
                 s_from.add(line('from', rmol_ints(rd), nbrs_ints(rd)), 'ok ' + ' '.join(map(str, pre)), f'{tag}:rd:{vt}', nt)
+                add_final(ctx, s_ff, rd, back, fbox, f'{tag}:rd:{vt}')
                 kind = 'B'
                 try:
                     kind, bad = judge_B_any(rd)
@@ -1256,7 +1338,7 @@ def correspond(ctx):
     s_conf = Stream(ctx, 'conformers')
     conformer_stream(ctx, s_conf)
     edge_from(ctx, s_edge)
-    for s in (s_env, s_to, s_tof, s_from, s_rt, s_edge, s_conf):
+    for s in (s_env, s_to, s_tof, s_from, s_ff, s_rt, s_edge, s_conf):
         s.run()
     if _state.get('unsupported-dropped'):
         ctx.notes.append(f"{len(_state['unsupported-dropped'])} molecules lost only labels RDKit cannot carry (allene, cumulated or "
@@ -1689,6 +1771,12 @@ def conformer_stream(ctx, stream):
         except Exception:
             pass
         set_coords(rng, mol)
+        try:
+            from chython.utils.rdkit import to_rdkit_molecule
+            to_rdkit_molecule(mol)
+        except Exception:
+            ctx.dist('conformers:molecule-does-not-convert')     # judged by A (raises / recorded finding), not a conformer matter
+            continue
         for kind in rng.sample(CONF_KINDS, 4 if ctx.quick else len(CONF_KINDS)):
             confs = None if kind == 'none' else make_conformers(rng, mol, kind)
             m = mol.copy()
